@@ -352,6 +352,38 @@ pub fn run(ctx: &'static Ctx) -> (&'static str, Value, Vec<&'static str>) {
             st
         })
         .reduce(Stats::new, Stats::merge);
+    // history dimension: consecutive decodes whose raw values differ only in one bit / the low
+    // three bits / all bits (a memo keyed on part of the value shows here), on the same thread
+    let masks: Vec<u16> = (0..16).map(|b| 1u16 << b).chain([0x0007, 0xFFFF, 0x8007]).collect();
+    let sh: Stats = (0u32..65536)
+        .into_par_iter()
+        .fold(Stats::new, |mut st, raw| {
+            let before = ctx.failure_count();
+            for &m in &masks {
+                check_raw16(ctx, &base, raw as u16, &mut st);
+                check_raw16(ctx, &base, raw as u16 ^ m, &mut st);
+            }
+            check_raw16(ctx, &base, raw as u16, &mut st);
+            if ctx.failure_count() > before {
+                ctx.fail("history:raw16_accessor_depends_on_previous_decode", || format!("sequence raw {raw:#06x}, raw ^ mask, ... on one thread"), || json!({"op": "history16", "raw": raw}));
+            }
+            st.count("history_raw_sequences", masks.len() as u64);
+            st
+        })
+        .reduce(Stats::new, Stats::merge);
+    let s16 = s16.merge(sh);
+    // short-read environment for the message decoder
+    let mut ssr = Stats::new();
+    {
+        use crate::guard::{short_read_check, SplitReader};
+        for (plan, cuts) in [(0u8, 0u16), (0, 1), (1, 3), (2, 51)] {
+            let bytes = body(plan, cuts, cuts as usize);
+            let n = short_read_check(ctx, "decode_volume_coverage_pattern", &bytes, cuts <= 3, |r: &mut SplitReader| vcp::decode_volume_coverage_pattern(r).ok(), |shape| json!({"op": "short_read", "plan": plan, "cuts": cuts, "boundaries": shape.0, "max_chunk": shape.1}));
+            ssr.evaluations += n;
+            ssr.count("short_read_shapes", n);
+        }
+    }
+    let s16 = s16.merge(ssr);
     let mut s8 = Stats::new();
     for raw in 0..=255u8 {
         check_raw8(ctx, &base, raw, &mut s8);
@@ -359,7 +391,7 @@ pub fn run(ctx: &'static Ctx) -> (&'static str, Value, Vec<&'static str>) {
     }
     let stats = stats.merge(s16).merge(s8);
     let cov = stats.coverage(
-        "5 value plans x all cut counts 0..=51 (every header and cut field compared with the bytes at its table offset, direct and frame path); declared counts {52..60,100,255,256,1000,32767,32768,65535} must be errors; short bodies; all 65536 raw values through every 16-bit scaled/bit accessor (plain and uom); all 256 through every byte-wide accessor. non-trivial = distinct (plan,cuts) / raw value",
+        "5 value plans x all cut counts 0..=51 (every header and cut field compared with the bytes at its table offset, direct and frame path); declared counts {52..60,100,255,256,1000,32767,32768,65535} must be errors; short bodies; all 65536 raw values through every 16-bit scaled/bit accessor (plain and uom); all 256 through every byte-wide accessor; history: for every raw value the sequence raw, raw^mask, raw on one thread for 19 masks (each single bit, 0x0007, 0x8007, 0xFFFF); short-read reader shapes for the message decoder. non-trivial = distinct (plan,cuts) / raw value",
         true,
         json!({"plans": 5, "cuts": "0..=51"}),
     );
@@ -381,6 +413,14 @@ pub fn replay(ctx: &'static Ctx, case: &Value) {
         Some("layout") => check_layout(ctx, case["plan"].as_u64().unwrap_or(0) as u8, case["cuts"].as_u64().unwrap_or(0) as u16, &mut st),
         Some("overflow") => check_overflow_count(ctx, case["declared"].as_u64().unwrap_or(52) as u16, &mut st),
         Some("raw16") => check_raw16(ctx, &base, case["raw"].as_u64().unwrap_or(0) as u16, &mut st),
+        Some("history16") => {
+            let raw = case["raw"].as_u64().unwrap_or(0) as u16;
+            for b in 0..16 {
+                check_raw16(ctx, &base, raw, &mut st);
+                check_raw16(ctx, &base, raw ^ (1 << b), &mut st);
+            }
+            check_raw16(ctx, &base, raw, &mut st);
+        }
         Some("raw8") => check_raw8(ctx, &base, case["raw"].as_u64().unwrap_or(0) as u8, &mut st),
         _ => {
             let _ = run(ctx);
